@@ -121,6 +121,43 @@ def includedOf (mods : List (Nat × Option String)) : List Nat :=
 def importedOf (mods : List (Nat × Option String)) : List (Nat × String) :=
   mods.filterMap fun (mid, a) => match a with | none => none | some m => some (mid, m)
 
+/-! ### specification side of the look-ups -/
+
+/-- run-time environment as a list, index 0 first: local slots (innermost first), then the data
+    imports of all modules from the far end, then the global variables from the far end
+    (`Vars::new(globals ++ imported)`, binders consed in front) -/
+def envOf {V : Type} (locals : List (Bind × V)) (imp : List ((String × Nat) × V)) (glob : List (String × V)) : List V :=
+  locals.map (·.2) ++ ((imp.map (·.2)).reverse ++ (glob.map (·.2)).reverse)
+
+/-- what `$x` means in module `cur`: innermost local binder, else the latest data import of this
+    module under that name, else the latest global of that name -/
+def specVar {V : Type} (locals : List (Bind × V)) (imp : List ((String × Nat) × V)) (cur : Nat)
+    (glob : List (String × V)) (x : String) : Option V :=
+  match locals.find? (fun e => e.1 = .var x) with
+  | some e => some e.2
+  | none =>
+    match imp.reverse.find? (fun e => x = e.1.1 ∧ e.1.2 = cur) with
+    | some e => some e.2
+    | none => (glob.reverse.find? (fun e => x = e.1)).map (·.2)
+
+
+/-- the module-level definitions a list of includes brings in, in the textual order of the
+    inlined program: (module, index in the module, signature) -/
+def block (mid : Nat) (defs : List Sig) : List (Nat × Nat × Sig) :=
+  defs.zipIdx.map fun (s, k) => (mid, k, s)
+
+def broughtIn (mm : List (List Sig)) (inc : List Nat) : List (Nat × Nat × Sig) :=
+  (inc.map fun mid => block mid (mm[mid]?.getD [])).flatten
+
+def lookupOf : Option (Nat × Nat) → Lookup
+  | some (mid, k) => .found mid k
+  | none => .undef
+
+/-- ordinary lexical look-up in one flat list of definitions: the latest one wins -/
+def lexical (scope : List (Nat × Nat × Sig)) (name : String) (ar : Nat) : Option (Nat × Nat) :=
+  (scope.reverse.find? fun e => e.2.2.matches name ar).map fun e => (e.1, e.2.1)
+
+
 /-! ## Part 2: probe language -/
 
 inductive Param where
